@@ -8,6 +8,7 @@ CONSTANTS
   NoSync = FALSE
   MaxFaults = 1
   FaultCalls = {"open", "write", "short", "link", "sync", "close", "rename", "unlink"}
+  RetryOn = FALSE
   CrashOn = FALSE
   BugPrecedence = FALSE
   BugLockLeak = FALSE
